@@ -26,7 +26,7 @@ unsafe impl Sync for Shared {}
 
 static SHARED: OnceLock<Option<Shared>> = OnceLock::new();
 static NEXT_SLOT: AtomicUsize = AtomicUsize::new(0);
-static SKIP: OnceLock<Mutex<HashMap<String, String>>> = OnceLock::new();
+static SKIP: OnceLock<Mutex<HashMap<u64, String>>> = OnceLock::new();
 static WALL_LIMIT_MS: AtomicUsize = AtomicUsize::new(10_000);
 
 thread_local! {
@@ -51,15 +51,24 @@ pub fn set_wall_limit_ms(ms: usize) {
     WALL_LIMIT_MS.store(ms, Ordering::SeqCst);
 }
 
-fn skip_map() -> &'static Mutex<HashMap<String, String>> {
+fn fnv(s: &str) -> u64 {
+    let mut h: u64 = 0xcbf29ce484222325;
+    for b in s.bytes() {
+        h ^= b as u64;
+        h = h.wrapping_mul(0x100000001b3);
+    }
+    h ^ ((s.len() as u64) << 40)
+}
+
+fn skip_map() -> &'static Mutex<HashMap<u64, String>> {
     SKIP.get_or_init(|| {
         let mut m = HashMap::new();
         if let Ok(p) = std::env::var("VERIF_SKIP_FILE") {
             if let Ok(s) = std::fs::read_to_string(p) {
                 for line in s.lines() {
                     if let Ok(v) = serde_json::from_str::<serde_json::Value>(line) {
-                        if let (Some(sql), Some(kind)) = (v["sql"].as_str(), v["kind"].as_str()) {
-                            m.insert(sql.to_string(), kind.to_string());
+                        if let (Some(h), Some(kind)) = (v["hash"].as_str().and_then(|h| h.parse::<u64>().ok()), v["kind"].as_str()) {
+                            m.insert(h, kind.to_string());
                         }
                     }
                 }
@@ -76,7 +85,7 @@ pub fn skipped(sql: &str) -> Option<String> {
     if m.is_empty() {
         return None;
     }
-    m.get(sql).cloned()
+    m.get(&fnv(sql)).cloned()
 }
 
 fn shared() -> Option<&'static Shared> {
@@ -96,10 +105,11 @@ pub fn enter(sql: &str) {
         MY_SLOT.with(|&s| unsafe {
             let p = sh.base.add(s * SLOT);
             let bytes = sql.as_bytes();
-            let n = bytes.len().min(SLOT - 16);
-            std::ptr::copy_nonoverlapping(bytes.as_ptr(), p.add(16), n);
+            let n = bytes.len().min(SLOT - 24);
+            std::ptr::copy_nonoverlapping(bytes.as_ptr(), p.add(24), n);
             std::ptr::write_volatile(p.add(8) as *mut u32, n as u32);
             std::ptr::write_volatile(p.add(12) as *mut u32, if bytes.len() > n { 1 } else { 0 });
+            std::ptr::write_volatile(p.add(16) as *mut u64, fnv(sql));
             std::ptr::write_volatile(p as *mut u64, now_ms());
         });
     }
@@ -113,7 +123,7 @@ pub fn leave() {
     }
 }
 
-fn read_slots(base: *mut u8) -> Vec<(u64, String, bool)> {
+fn read_slots(base: *mut u8) -> Vec<(u64, String, u64)> {
     let mut out = Vec::new();
     for s in 0..NSLOTS {
         unsafe {
@@ -122,20 +132,18 @@ fn read_slots(base: *mut u8) -> Vec<(u64, String, bool)> {
             if t == 0 {
                 continue;
             }
-            let n = (std::ptr::read_volatile(p.add(8) as *const u32) as usize).min(SLOT - 16);
-            let trunc = std::ptr::read_volatile(p.add(12) as *const u32) == 1;
-            let bytes = std::slice::from_raw_parts(p.add(16), n);
-            out.push((t, String::from_utf8_lossy(bytes).to_string(), trunc));
+            let n = (std::ptr::read_volatile(p.add(8) as *const u32) as usize).min(SLOT - 24);
+            let hash = std::ptr::read_volatile(p.add(16) as *const u64);
+            let bytes = std::slice::from_raw_parts(p.add(24), n);
+            out.push((t, String::from_utf8_lossy(bytes).to_string(), hash));
         }
     }
     out
 }
 
-fn record_skip(sql: &str, kind: &str) {
+fn record_skip(sql: &str, hash: u64, kind: &str) {
     if let Ok(p) = std::env::var("VERIF_SKIP_FILE") {
-        if let Ok(mut f) = OpenOptions::new().create(true).append(true).open(p) {
-            let _ = writeln!(f, "{}", serde_json::json!({"sql": sql, "kind": kind}));
-        }
+        record_skip_to(std::path::Path::new(&p), sql, hash, kind);
     }
 }
 
@@ -144,9 +152,9 @@ fn watchdog(sh: usize) {
         std::thread::sleep(std::time::Duration::from_millis(200));
         let limit = WALL_LIMIT_MS.load(Ordering::SeqCst) as u64;
         let now = now_ms();
-        for (t, sql, trunc) in read_slots(sh as *mut u8) {
-            if now.saturating_sub(t) > limit && !trunc {
-                record_skip(&sql, "hang");
+        for (t, sql, hash) in read_slots(sh as *mut u8) {
+            if now.saturating_sub(t) > limit {
+                record_skip(&sql, hash, "hang");
                 eprintln!("verif-guard: statement exceeded the {limit} ms wall limit, restarting without it: {}", crate::infra::one_line(&sql, 200));
                 std::process::exit(3);
             }
@@ -199,8 +207,8 @@ pub fn supervise(args: &[String]) -> i32 {
             None => {
                 // killed by a signal: attribute to the statement(s) in flight
                 let slots = read_slots(base);
-                if slots.len() == 1 && !slots[0].2 {
-                    record_skip_to(&skip, &slots[0].1, "abort");
+                if slots.len() == 1 {
+                    record_skip_to(&skip, &slots[0].1, slots[0].2, "abort");
                     eprintln!("verif-guard: child died ({status}); in-flight statement recorded as abort: {}", crate::infra::one_line(&slots[0].1, 200));
                     force_single = false;
                     continue;
@@ -220,8 +228,8 @@ pub fn supervise(args: &[String]) -> i32 {
     code
 }
 
-fn record_skip_to(path: &std::path::Path, sql: &str, kind: &str) {
+fn record_skip_to(path: &std::path::Path, sql: &str, hash: u64, kind: &str) {
     if let Ok(mut f) = OpenOptions::new().create(true).append(true).open(path) {
-        let _ = writeln!(f, "{}", serde_json::json!({"sql": sql, "kind": kind}));
+        let _ = writeln!(f, "{}", serde_json::json!({"hash": hash.to_string(), "sql": crate::infra::one_line(sql, 300), "kind": kind}));
     }
 }
